@@ -181,3 +181,77 @@ impl<'a> std::io::Read for ByteReader<'a> {
         Ok(n)
     }
 }
+
+
+/// A raw (bigram feature) connector with `nr` x `nl` ids, 3 template positions padded to one
+/// 8-lane block, arbitrary small feature ids and an arbitrary 3-base / 4-cell scorer with bounded
+/// costs.  Row 0 (BOS/EOS) is arbitrary as well.
+#[cfg(kani)]
+pub fn sym_raw_connector(nr: usize, nl: usize) -> RawConnector {
+    let mut b = Vec::with_capacity(3);
+    let mut ch = Vec::with_capacity(4);
+    let mut co = Vec::with_capacity(4);
+    for _ in 0..3 {
+        b.push(kani::any::<u32>());
+    }
+    for _ in 0..4 {
+        ch.push(kani::any::<u32>());
+        let c: i32 = kani::any();
+        kani::assume(c > -(1 << 20) && c < (1 << 20));
+        co.push(c);
+    }
+    let sc = Scorer::verif_from_parts(b, ch, co);
+    let mut rows_r = Vec::with_capacity(nr);
+    let mut rows_l = Vec::with_capacity(nl);
+    for _ in 0..nr {
+        rows_r.push(sym_feature_block(3));
+    }
+    for _ in 0..nl {
+        rows_l.push(sym_feature_block(3));
+    }
+    RawConnector::new(rows_r, rows_l, 1, sc)
+}
+
+#[cfg(kani)]
+pub fn sym_feature_block(t: usize) -> U31x8 {
+    let mut a = [INVALID_FEATURE_ID; 8];
+    for i in 0..8 {
+        if i < t {
+            let x: u32 = kani::any();
+            kani::assume(x < 4);
+            a[i] = U31::new(x).unwrap();
+        }
+    }
+    U31x8::verif_from_array(a)
+}
+
+/// A dual connector: 2x2 class matrix, arbitrary class maps (id 0 -> class 0), one raw block per id.
+#[cfg(kani)]
+pub fn sym_dual_connector(nr: usize, nl: usize) -> DualConnector {
+    let m = sym_matrix(2, 2);
+    let mut rmap = Vec::with_capacity(nr);
+    let mut lmap = Vec::with_capacity(nl);
+    let mut rows_r = Vec::with_capacity(nr);
+    let mut rows_l = Vec::with_capacity(nl);
+    for i in 0..nr {
+        rmap.push(if i == 0 { 0 } else { any_below_u16(2) });
+        rows_r.push(sym_feature_block(8));
+    }
+    for i in 0..nl {
+        lmap.push(if i == 0 { 0 } else { any_below_u16(2) });
+        rows_l.push(sym_feature_block(8));
+    }
+    let mut b = Vec::with_capacity(3);
+    let mut ch = Vec::with_capacity(4);
+    let mut co = Vec::with_capacity(4);
+    for _ in 0..3 {
+        b.push(kani::any::<u32>());
+    }
+    for _ in 0..4 {
+        ch.push(kani::any::<u32>());
+        let c: i32 = kani::any();
+        kani::assume(c > -(1 << 20) && c < (1 << 20));
+        co.push(c);
+    }
+    DualConnector::verif_from_parts(m, rmap, lmap, rows_r, rows_l, Scorer::verif_from_parts(b, ch, co))
+}
